@@ -1,6 +1,6 @@
 (* C11 — concurrent transactions never cross: replies reach only the request they answer.
    Property theorems only; model Bac.Ssm / Bac.SsmWorld, proofs in Bac.SsmFacts / Bac.SsmC11. *)
-From Bac Require Import Base PyRt Ssm SsmFacts SsmC04a SsmC11 SsmC11s SsmWorld.
+From Bac Require Import Base PyRt Ssm SsmFacts SsmC04a SsmC11 SsmC11a SsmC11s SsmWorld.
 Open Scope Z_scope.
 
 (* the id handed out is used by no live transaction to that peer, and it is an octet *)
@@ -21,6 +21,15 @@ Theorem C11_fresh_id_terminates : forall next peer live, 0 <= next < 256 ->
 Proof. exact get_next_invoke_id_total. Qed.
 Print Assumptions C11_fresh_id_terminates.
 
+(* the allocator succeeds as soon as any of the 255 ids it probes — next, next+1, ..., next+254 modulo 256 — is free for that
+   peer, wherever the live ids lie (runs of live ids across the wrap 255 -> 0 included), and the id it returns is not live *)
+Theorem C11_fresh_id_succeeds : forall next peer live k, 0 <= next < 256 -> 0 <= k < 255 ->
+  existsb (tr_matches ((next + k) mod 256) peer) live = false ->
+  exists id nx, get_next_invoke_id next peer live = (Ok id, nx) /\
+                (forall t, In t live -> ~ (s_invoke t = id /\ s_peer t = peer)).
+Proof. exact get_next_invoke_id_succeeds. Qed.
+Print Assumptions C11_fresh_id_succeeds.
+
 (* a reply, server-side segment-ack or server abort that matches no live client transaction — other peer, other id, or
    after completion — leaves the whole world unchanged *)
 Theorem C11_late_reply_ignored : forall src dst a w n,
@@ -39,7 +48,7 @@ Print Assumptions C11_stray_client_pdu_ignored.
    table is replaced or removed; its server table and every other node stay as they were *)
 Theorem C11_rx_touches_only_match_client : forall src dst a w n i t,
   to_client_side a = true -> get_node dst (w_nodes w) = Some n -> c_raw (n_cfg n) = false ->
-  find_tr (a_invoke a) src (n_ctr n) O = Some (i, t) ->
+  find_tr (a_invoke a) src (n_ctr n) O = Some (i, t) -> w_chains w = [] ->
   s_peer t = src /\ s_invoke t = a_invoke a /\
   exists l', w_nodes (deliver src dst a w) = put_node (mkN (n_cfg n) (n_next n) l' (n_str n)) (w_nodes w) /\
              ((exists t', l' = replace_nth i t' (n_ctr n)) \/ l' = remove_nth i (n_ctr n)).
@@ -107,6 +116,10 @@ Example C11_server_side_example :
   exists n, get_node 2 (w_nodes w) = Some n /\ (forall t, In t (n_str n) -> ctx_ok t) /\
             to_client_side (mk_creq false false true (-1) (-1) 0 0 7 12 [1]) = false.
 Proof. eexists. vm_compute. repeat split. intros t []. Qed.
+Example C11_wrap_run_example :
+  let mk i := set_invoke_f i (mkSsm 5 (-1) IDLE None 0 0 0 0 false 0 0 None 3 3000 1500 3 (Some 64) 50 false None None 2 3000) in
+  get_next_invoke_id 255 5 [mk 255; mk 0] = (Ok 1, 2) /\ get_next_invoke_id 254 5 [mk 254; mk 255; mk 0] = (Ok 1, 2).
+Proof. exact wrap_run_example. Qed.
 Example C11_reply_kinds : forallb to_client_side [mk_sack 1 12; mk_cack false false 0 0 1 12 []; mk_error 1 12 []; mk_reject 1 3;
                                                  mk_abort true 1 4; mk_segack false true 1 0 2] = true.
 Proof. vm_compute. reflexivity. Qed.
